@@ -161,10 +161,10 @@ def parse_vc(path):
             u.seq.append(dict(kind="traitimpl", src=m.group(1), header=m.group(2), methods=ms, target=m.group(4), line=ln))
         elif d == "slice":
             # @@ slice <src> <fnpath-in-source> <newname> "<start anchor>" "<end anchor>"   (R9)
-            m = re.match(r'@@\s*slice\s+(\S+)\s+(\S+)\s+(\S+)\s+"(.*?)"\s+"(.*?)"\s*$', raw)
+            m = re.match(r'@@\s*slice\s+(\S+)\s+(\S+)\s+(\S+)\s+"(.*?)"\s+"(.*?)"(?:\s*#(\d+))?\s*$', raw)
             if not m:
                 raise SystemExit("%s:%d: bad slice" % (path, ln))
-            cur = dict(kind="slicehdr", src=m.group(1), host=m.group(2), new=m.group(3), a0=m.group(4), a1=m.group(5), line=ln)
+            cur = dict(kind="slicehdr", src=m.group(1), host=m.group(2), new=m.group(3), a0=m.group(4), a1=m.group(5), n1=int(m.group(6) or 1), line=ln)
             u.seq.append(cur)
             cur = None
         elif d == "spec":
@@ -278,6 +278,9 @@ def rewrite_macros(text, log, where, settings):
             elif name == "unreachable" and inner.strip():
                 repl = "unreachable!()"
                 log.append(("R2", where, "unreachable-message-dropped"))
+            elif name == "format" and settings.get("format") == "stubdrop":
+                repl = "{ verif_fmt() }"
+                log.append(("R4", where, "format! -> verif_fmt() (text and arguments dropped)"))
             elif name == "format" and settings.get("format") == "stub":
                 a = split_args(inner)[1:]
                 stm = []
@@ -580,7 +583,7 @@ def desugar_map_collect(text, log, where):
         hit = None
         for i in range(1, len(toks) - 8):
             if toks[i].text == "iter" and toks[i - 1].text == "." and toks[i + 1].text == "(" and toks[i + 2].text == ")" \
-                    and toks[i + 3].text == "." and toks[i + 4].text == "map" and toks[i + 5].text == "(" and toks[i + 6].text == "|":
+                    and toks[i + 3].text == "." and toks[i + 4].text in ("map", "filter_map") and toks[i + 5].text == "(" and toks[i + 6].text == "|":
                 mclose = match_close(toks, i + 5)
                 # closure params
                 pe = i + 7
@@ -601,18 +604,23 @@ def desugar_map_collect(text, log, where):
                     r -= 1
                 if toks[r].text == ".":
                     r += 1
-                hit = (r, i, pe, mclose, c + 1)
+                hit = (r, i, pe, mclose, c + 1, toks[i + 4].text)
                 break
         if hit is None:
             return text
-        r, i, pe, mclose, end = hit
+        r, i, pe, mclose, end, kind = hit
         recv = text[toks[r].start:toks[i - 1].start].strip()
         recv = re.sub(r"\s+", "", recv)
         pat = text[toks[i + 6].end:toks[pe].start].strip()
         body = text[toks[pe].end:toks[mclose].start].strip()
-        repl = "{ let mut verif_out = Vec::new(); for %s in %s.iter() { verif_out.push(%s); } verif_out }" % (pat, recv, body)
+        if kind == "map":
+            repl = "{ let mut verif_out = Vec::new(); for %s in %s.iter() { verif_out.push(%s); } verif_out }" % (pat, recv, body)
+        else:
+            # filter_map: the closure is kept as a closure (its body may use `?`), called once per element; Some(v) is pushed
+            repl = ("{ let mut verif_out = Vec::new(); for verif_x in %s.iter() { let verif_fm = verif_call1(verif_x, |%s| %s);\nif let Some(verif_v) = verif_fm { verif_out.push(verif_v); } } verif_out }"
+                    % (recv, pat, body))
         text = text[:toks[r].start] + repl + text[toks[end].end:]
-        log.append(("R17", where, "iter().map(..).collect() over %s desugared into a loop" % recv))
+        log.append(("R17", where, "iter().%s(..).collect() over %s desugared into a loop" % (kind, recv)))
 
 
 def desugar_let_chains(text, log, where):
@@ -1241,9 +1249,11 @@ class Assembler:
         i0 = text.find(d["a0"])
         if i0 < 0:
             raise Lost("slice start anchor %r not found in %s" % (d["a0"], d["host"]))
-        i1 = text.find(d["a1"], i0 + len(d["a0"]))
-        if i1 < 0:
-            raise Lost("slice end anchor %r not found in %s" % (d["a1"], d["host"]))
+        i1 = i0 + len(d["a0"]) - 1
+        for _ in range(d.get("n1", 1)):
+            i1 = text.find(d["a1"], i1 + 1)
+            if i1 < 0:
+                raise Lost("slice end anchor %r (#%d) not found in %s" % (d["a1"], d.get("n1", 1), d["host"]))
         # whole lines: from start of the line containing a0 to the end of the line containing a1
         b = text.rfind("\n", 0, i0) + 1
         e = text.find("\n", i1)
@@ -1254,13 +1264,20 @@ class Assembler:
         sig, rest = (spec["text"].split("\n", 1) + [""])[:2]
         sig = sig[4:].strip()
         tail = ""
+        head = ""
+        extra = 0
+        mh = re.match(r"^head:(.*)$", rest.split("\n", 1)[0]) if rest else None
+        if mh:
+            head = mh.group(1).strip()
+            rest = rest.split("\n", 1)[1] if "\n" in rest else ""
+            extra += 1
         m = re.match(r"^tail:(.*)$", rest.split("\n", 1)[0]) if rest else None
         if m:
             tail = m.group(1).strip()
             rest = rest.split("\n", 1)[1] if "\n" in rest else ""
         saved = dict(spec)
-        fn_text = "%s\n{\n%s\n%s\n}" % (sig, body, tail)
-        self.u.specs[d["new"]] = dict(text=rest, ret=spec["ret"], line=spec["line"] + 1 + (1 if m else 0), attrs=spec.get("attrs", ""), noret=True)
+        fn_text = "%s\n{\n%s\n%s\n%s\n}" % (sig, head, body, tail)
+        self.u.specs[d["new"]] = dict(text=rest, ret=spec["ret"], line=spec["line"] + 1 + (1 if m else 0) + extra, attrs=spec.get("attrs", ""), noret=True)
         origin = "%s:%d (slice of %s)" % (s.path, s.line_of(it.start + b), d["host"])
         self.log.append(("R9", d["new"], "slice of %s lines %d-%d" % (d["host"], s.line_of(it.start + b), s.line_of(it.start + e))))
         self.add_fn_slice(d["new"], fn_text, origin)
